@@ -2,7 +2,7 @@
 import ast
 
 from .model import AnalysisError, node_src, is_self_attr, call_name, fold, NotConst
-from .paths import Interp, Domain, Env, TOP, NONE, Exc, ORD, ASYNC, fmt_trace
+from .paths import Interp, Domain, Env, TOP, NONE, Const, Exc, ORD, ASYNC, fmt_trace
 from . import poolpaths
 from .report import walk_no_nested
 
@@ -36,22 +36,22 @@ def run(chk):
     pooled = prog.cls("PooledClient")
     # ---------------- R1
     r1 = chk.rule("C09.R1", "every get_and_release bracket of PooledClient passes the constant destroy_on_fail=True")
-    gar = prog.method("ObjectPool", "get_and_release")
+    from . import pooled as pooled_an
+
     n = 0
-    for m in pooled.methods.values():
-        for c in walk_no_nested(m.node):
-            if isinstance(c, ast.Call) and isinstance(c.func, ast.Attribute) and c.func.attr == "get_and_release":
-                n += 1
-                val = None
-                for k in c.keywords:
-                    if k.arg == "destroy_on_fail":
-                        val = k.value
-                pos = [p.name for p in gar.pos_params()]
-                if val is None and "destroy_on_fail" in pos and pos.index("destroy_on_fail") < len(c.args):
-                    val = c.args[pos.index("destroy_on_fail")]
-                ok = isinstance(val, ast.Constant) and val.value is True
-                r1.expect(ok, "PooledClient.%s: destroy_on_fail=True" % m.name, "PooledClient.%s:destroy_on_fail" % m.name, "PooledClient.%s enters the pool bracket with destroy_on_fail=%s: a client whose call failed goes back into the pool" % (m.name, node_src(val) if val is not None else "<default False>"), fn=m, node=c)
-    r1.floor("bracket sites", n, 24)
+    for name, runs in sorted(pooled_an.analyse(prog).items()):
+        m = pooled.methods[name]
+        brs = set()
+        for r in runs:
+            if r.state.get("calls", ()) or r.state.get("brackets", ()):
+                brs |= set(r.state.get("brackets", ()))
+        if not brs:
+            r1.fail("PooledClient.%s:no-bracket" % name, "PooledClient.%s never enters the pool bracket" % name, fn=m)
+            continue
+        n += 1
+        bad = [b for b in brs if b != Const(True)]
+        r1.expect(not bad, "PooledClient.%s: destroy_on_fail=True" % name, "PooledClient.%s:destroy_on_fail" % name, "PooledClient.%s enters the pool bracket with destroy_on_fail=%s: a client whose call failed goes back into the pool" % (name, [getattr(b, "v", b) for b in bad]), fn=m, node=m.node)
+    r1.floor("PooledClient methods that enter the bracket", n, 24)
 
     # ---------------- R2
     r2 = chk.rule("C09.R2", "slot conservation: after get() every normal / ordinary-exception exit of get_and_release passes exactly one release/destroy (destroy on failure)")
